@@ -605,6 +605,10 @@ class Exec:
             items = list(val.items)
         elif isinstance(val, list):
             items = list(val)
+        elif isinstance(val, ty.SeqV) and not isinstance(val.elem, ty.RefT):
+            # a, b, c = row  for a symbolic vector: its length must be n (ValueError otherwise - a safety obligation), the targets are its entries
+            self.safety(st, "unpack-arity", val.len == n, node)
+            items = [val.at(z3.IntVal(k)) for k in range(n)]
         else:
             raise Unsupported(f"unpacking of {val!r}", node)
         if len(items) != n:
